@@ -38,7 +38,8 @@ ASSUMPTIONS = [
     'conditions over a to-many collection (g.members = Set(P), queries over G; Model/C01Coll.v): the atoms exists(m for m in g.members if c) / g.members / their negations, '
     'v [not] in (m.a for m in g.members if c), v [not] in g.members.a, not (v in (...)), scalar conditions mentioning count(m for m in g.members if c), joined by `and`; '
     'reference: the members are the P objects whose group is g; a None element of the collection never matches, a None left operand makes the comparisons unknown; primary '
-    'keys of P are distinct integers; one count-subquery per condition; len(g.members) / count(g.members) (the LEFT JOIN + GROUP BY + HAVING form) and sum / min / max / avg over a collection are not modelled',
+    'keys of P are distinct integers; one count-subquery per condition; len(g.members) / count(g.members) in conditions have their own model (Model/C01Len.v: LEFT JOIN + GROUP BY g.id + '
+    'HAVING; primary keys of G distinct integers; WHERE conditions over g\'s own columns); sum / min / max / avg over a collection, len() in the selected expression are not modelled',
     'aggregates as whole-query results without GROUP BY (Model/C01Aggr.v): select(count() | count(p) | count(e) | sum(e) | sum(distinct(e)) | min(e) | max(e) | avg(e) | '
     'avg(distinct(e)) for p in P [if c]); reference = Pony\'s documented aggregates over the comprehension: None values skipped, sum of nothing 0, min / max / avg of nothing None, '
     'count(e) = number of different non-None values (strict Python would raise on None operands and has no count); the average is the exact quotient (float rounding outside); '
@@ -56,8 +57,8 @@ RULE = ('structural: all 1330 depth<=2 expressions over a 14-leaf alphabet (samp
         'distinct = distinct (provider, mode, query text); join and collection queries: hand-made shapes + seeded random queries (1-2 atoms, inner conditions of depth <= 3) '
         'on 4 providers and on real SQLite over fixed object graphs (groups with 0..4 members, None among member values and among g\'s own)')
 
-QUICK = dict(aggr_queries=30, aggr_search=200, coll_queries=30, coll_search=150, join_queries=40, join_search=150, like_random=60, n_random=240, n_enum=300, n_depth3=60, sem_random=90, sem_enum=110, sem_depth3=30, rows=6, search_random=260, search_ext=160)
-THOROUGH = dict(aggr_queries=400, aggr_search=4000, coll_queries=400, coll_search=3000, join_queries=500, join_search=3000, like_random=600, n_random=2500, n_enum=1330, n_depth3=500, sem_random=600, sem_enum=700, sem_depth3=200, rows=14, search_random=4000, search_ext=3000)
+QUICK = dict(len_queries=20, len_search=120, aggr_queries=30, aggr_search=200, coll_queries=30, coll_search=150, join_queries=40, join_search=150, like_random=60, n_random=240, n_enum=300, n_depth3=60, sem_random=90, sem_enum=110, sem_depth3=30, rows=6, search_random=260, search_ext=160)
+THOROUGH = dict(len_queries=300, len_search=3000, aggr_queries=400, aggr_search=4000, coll_queries=400, coll_search=3000, join_queries=500, join_search=3000, like_random=600, n_random=2500, n_enum=1330, n_depth3=500, sem_random=600, sem_enum=700, sem_depth3=200, rows=14, search_random=4000, search_ext=3000)
 
 
 def sizes(ctx, deep=False):
@@ -145,6 +146,17 @@ def correspondence(ctx):
         disagreements.append({'what': 'model and implementation differ (%s): %s' % (m['mode'], m['query']), 'input': {k: v for k, v in m.items() if k != 'impl'},
                               'impl': m['impl'], 'coq_case': c_exprs[i][:1500]})
 
+    # (6b) len(g.members) / count(g.members): LEFT JOIN / WHERE / HAVING partition on four providers (incl. the statements with the aggregate in
+    #      WHERE, which the model predicts to be rejected), result lists on real SQLite
+    l_exprs, l_meta, l_dis, l_nontriv, l_dist = C.len_cases(ctx, C.gen_len_queries(ctx, z.get('len_queries', 20)), creal)
+    disagreements += l_dis
+    dist['collection_len'] = l_dist
+    l_bad = H.run_bools(ctx, l_exprs, name='len', header=C.LEN_HEADER, prelude='Definition DB := %s.\n' % C.coq_db(cgraph), jobs=2)
+    for i in l_bad[:10]:
+        m = l_meta[i]
+        disagreements.append({'what': 'model and implementation differ (%s): %s' % (m['mode'], m['query']), 'input': {k: v for k, v in m.items() if k != 'impl'},
+                              'impl': m.get('impl'), 'coq_case': l_exprs[i][:1500]})
+
     # (7) aggregates as whole-query results: aggregate column + conditions on four providers, the value on real SQLite
     a_exprs, a_meta, a_dis, a_nontriv, a_dist = A.aggr_cases(ctx, A.gen_queries(ctx, z.get('aggr_queries', 30)), real)
     disagreements += a_dis
@@ -167,8 +179,8 @@ def correspondence(ctx):
     if s_meta: samples.append({'structural': s_meta[len(s_meta) // 2]})
     if m_meta: samples.append({'semantic': m_meta[len(m_meta) // 2]})
     samples.append({'coq_case': exprs[len(exprs) // 3][:600]})
-    dist['cases'] = {'structural': len(s_exprs), 'semantic': len(m_exprs), 'reference': len(r_exprs), 'like': len(k_exprs), 'join': len(j_exprs), 'collection': len(c_exprs), 'aggregate': len(a_exprs)}
-    return Corr(cases=len(exprs) + len(k_exprs) + len(j_exprs) + len(c_exprs) + len(a_exprs), nontrivial=len(s_nontriv) + len(m_nontriv) + len(k_nontriv) + len(j_nontriv) + len(c_nontriv) + len(a_nontriv), disagreements=disagreements, samples=samples, distribution=dist,
+    dist['cases'] = {'structural': len(s_exprs), 'semantic': len(m_exprs), 'reference': len(r_exprs), 'like': len(k_exprs), 'join': len(j_exprs), 'collection': len(c_exprs), 'collection_len': len(l_exprs), 'aggregate': len(a_exprs)}
+    return Corr(cases=len(exprs) + len(k_exprs) + len(j_exprs) + len(c_exprs) + len(l_exprs) + len(a_exprs), nontrivial=len(s_nontriv) + len(m_nontriv) + len(k_nontriv) + len(j_nontriv) + len(c_nontriv) + len(l_nontriv) + len(a_nontriv), disagreements=disagreements, samples=samples, distribution=dist,
                 note='every case is a boolean computed by vm_compute inside Coq from the model and the serialised implementation output')
 
 
@@ -209,6 +221,8 @@ def search(ctx, deep):
     creal = J.RealGraph(C.coll_graph())
     c_evals, c_fail, c_nontriv, c_dist = C.coll_search(ctx, C.gen_queries(ctx, z.get('coll_search', 150), search=True), creal)
     evals += c_evals; failures += c_fail; nontriv |= c_nontriv; dist['collection'] = c_dist
+    l_evals, l_fail, l_nontriv, l_dist = C.len_search(ctx, C.gen_len_queries(ctx, z.get('len_search', 120)), creal)
+    evals += l_evals; failures += l_fail; nontriv |= l_nontriv; dist['collection_len'] = l_dist
     areal = H.RealDb(table_rows(ctx, 8))
     a_evals, a_fail, a_nontriv, a_dist = A.aggr_search(ctx, A.gen_queries(ctx, z.get('aggr_search', 200), search=True), areal, H.RealDb)
     evals += a_evals; failures += a_fail; nontriv |= a_nontriv; dist['aggregate'] = a_dist
@@ -220,6 +234,7 @@ def search(ctx, deep):
 def replay(ctx, data):
     if 'join' in data: return J.replay_join(data['join'])
     if 'coll' in data: return C.replay_coll(data['coll'])
+    if 'len' in data: return C.replay_len(data['len'])
     if 'aggr' in data: return A.replay_aggr(data['aggr'], H.RealDb)
     return H.replay_sqlite(data)
 
@@ -234,10 +249,11 @@ LEVEL_TEXT = ('Machine-checked proof (Coq 8.16.1, structural induction on the ex
               'linked SQLite; an end-to-end differential search on real SQLite also covers LIKE / upper / lower / slices / between. Further theorems with their own models, ties '
               'and searches: the LIKE family (C01_like), attribute paths through Optional to-one references with the FROM / LEFT JOIN section (C01_left_join_rows, '
               'C01_select_join_rows), and conditions over a to-many collection - EXISTS / NOT EXISTS, IN / NOT IN subqueries with the IS NOT NULL checks, COUNT(DISTINCT pk) '
-              'scalar subqueries, correlated inner conditions (C01_collection_atom, C01_collection_rows), and aggregates as whole-query results without GROUP BY - count / sum / '
+              'scalar subqueries, correlated inner conditions (C01_collection_atom, C01_collection_rows), len(g.members) / count(g.members) in conditions with the LEFT JOIN + '
+              'GROUP BY + HAVING statement the translator emits (C01_collection_len_rows), and aggregates as whole-query results without GROUP BY - count / sum / '
               'min / max / avg of a scalar expression over the filtered rows with the DISTINCT forms, NULL skipping and sum of nothing = 0 (C01_aggregate) - each stated except '
               'for recorded, refuted defects.')
-LEVEL_NOTE = ('Partial: joins over several loop variables, collection conditions other than the exists / in / count atoms (len(g.members) with GROUP BY / HAVING, sum / min / max over a collection, nested collections), aggregates with GROUP BY / HAVING or several per query, ordering, dates, Decimal / float, JSON, arrays, hybrid methods, lambdas and generator '
+LEVEL_NOTE = ('Partial: joins over several loop variables, collection conditions other than the exists / in / count / len atoms (sum / min / max over a collection, nested collections, or / not around exists / in), aggregates with GROUP BY / HAVING or several per query, ordering, dates, Decimal / float, JSON, arrays, hybrid methods, lambdas and generator '
               'objects (decompiler), entity row decoding are outside the theorem and outside this check. Trusted: Coq kernel + vm_compute; the hand-written translation '
               'model (tied structurally on every run); documentation models of PostgreSQL / MySQL (nothing executes there); the reference reading of None written from '
               'the property statement.')
